@@ -4,6 +4,7 @@ CONSTANTS
   MCMaxP = 3
   MCHour = 1
   MCRetry = 2
+  MCScheds = {"A", "C"}
 INVARIANTS
   NextInWindowOrAtLimit
   NoWindowPastLimit
